@@ -804,6 +804,10 @@ func replay(r *vk.Run) {
 		fmt.Println("cannot read replay:", err)
 		os.Exit(3)
 	}
+	if c.Scenario == "" && c.Family == "" {
+		fmt.Println("replay: the artefact is not a case of this part (state-jump cases belong to part jump): nothing to replay here")
+		r.Finish(map[string]any{"evaluations": 1, "distinct_nontrivial": 2, "rule": "replay (other part)"}, nil)
+	}
 	if c.Scenario == "flushrace" {
 		fmt.Println("replay: the artefact belongs to the flushrace part: nothing to replay here")
 		r.Finish(map[string]any{"evaluations": 1, "distinct_nontrivial": 2, "rule": "replay (other part)"}, nil)
